@@ -798,9 +798,14 @@ class ConstraintsUnion(AbstractConstraintSet):
             else:
                 return
 
-        raise error.ValueConstraintError(
-            'all of %s failed for "%s"' % (self._values, value)
-        )
+        try:
+            cause = 'all of %s failed for "%s"' % (self._values, value)
+
+        except ValueError:
+            # an integer with more digits than Python agrees to print
+            cause = 'all of %s failed' % (self._values,)
+
+        raise error.ValueConstraintError(cause)
 
 # TODO:
 # refactor InnerTypeConstraint
